@@ -113,6 +113,32 @@ static void templateEdits(Env& env, const std::string& stage, bool doubleEdits) 
   env.parallel(o);
 }
 
+// every BYTE string up to a length (all 256 byte values: no character class can be missed), through the parser and the explicit loader
+static void byteStrings(Env& env, const std::string& stage, int len) {
+  uint64_t n = 1; for (int i = 0; i < len; i++) n *= 256;
+  ParallelOpts o; o.stage = stage; o.size = n; o.block = 4096; o.caseTimeout = 5;
+  auto mk = [len](uint64_t idx) { std::string t; for (int i = 0; i < len; i++) { t += char(idx & 255); idx >>= 8; } return t; };
+  o.describe = [mk](uint64_t idx) { std::string t = mk(idx), h; char b[8]; for (unsigned char ch : t) { snprintf(b, sizeof b, "\\x%02x", ch); h += b; } return "bytes: " + h; };
+  o.run = [mk](uint64_t idx, Ctx& c) { std::string t = mk(idx); c.evals(); c.nontrivial(); VATA::Parsing::TimbukParser par;
+    try { par.ParseString(t); } catch (std::exception&) {} catch (...) { c.viol("TimbukParser::ParseString", "non_standard_exception_on_arbitrary_text", {}, "byte string #" + std::to_string(idx)); }
+    try { ExplicitTreeAut a; a.LoadFromString(par, t); } catch (std::exception&) {} catch (...) { c.viol("ExplicitTreeAut::LoadFromString", "non_standard_exception_on_arbitrary_text", {}, "byte string #" + std::to_string(idx)); } };
+  env.parallel(o);
+}
+// every single-BYTE edit (replace by each of the 256 values, delete, insert each value) of the valid templates, through all five entry points
+static void byteEdits(Env& env, const std::string& stage) {
+  uint64_t total = 0; std::vector<uint64_t> off; for (auto tp : TEMPLATES) { off.push_back(total); total += (uint64_t)(strlen(tp) + 1) * 513; }
+  auto OFF = std::make_shared<std::vector<uint64_t>>(off);
+  auto mk = [OFF](uint64_t idx) { size_t ti = 0; while (ti + 1 < OFF->size() && idx >= (*OFF)[ti + 1]) ti++; uint64_t x = idx - (*OFF)[ti]; std::string t = TEMPLATES[ti]; size_t pos = x / 513; int k = (int)(x % 513);
+    if (k < 256) { if (pos < t.size()) t[pos] = char(k); } else if (k < 512) t.insert(t.begin() + std::min(pos, t.size()), char(k - 256)); else if (pos < t.size()) t.erase(pos, 1); return t; };
+  ParallelOpts o; o.stage = stage; o.size = total; o.block = 512; o.caseTimeout = 5;
+  o.describe = [mk](uint64_t idx) { return "text: \"" + vis(mk(idx)) + "\""; };
+  o.run = [mk](uint64_t idx, Ctx& c) { std::string t = mk(idx); c.evals(); c.nontrivial(); std::string where; if (c.wantSample() && idx % 9001 == 11) c.sample("\"" + vis(t) + "\"");
+    if (tryAll(t, where)) c.viol(where, "non_standard_exception_on_arbitrary_text", {}, "text: \"" + vis(t) + "\""); };
+  env.parallel(o);
+}
+static Register d1("c13.bytes.len2", "C13", "ALL byte strings of length 2 (65 536): parser + explicit loader", [](Env& e) { byteStrings(e, "c13.bytes.len2", 2); });
+static Register d2("c13.bytes.len3", "C13", "ALL byte strings of length 3 (16.7 M): parser + explicit loader", [](Env& e) { byteStrings(e, "c13.bytes.len3", 3); });
+static Register d3("c13.byteedit1", "C13", "every single-byte edit (replace by / insert each of 256 values, delete) of 3 valid templates: parser + four loaders", [](Env& e) { byteEdits(e, "c13.byteedit1"); });
 static Register a1("c13.desc.k2", "C13", "all descriptions with <=2 rules over 3 state names x 3 symbols (ranks 0..2) x all final sets x named/anonymous: parse(serialize) and 2 textual variants", [](Env& e) { descRoundTrip(e, "c13.desc.k2", 2); });
 static Register a2("c13.desc.k3", "C13", "all descriptions with <=3 rules", [](Env& e) { descRoundTrip(e, "c13.desc.k3", 3); });
 static Register b1("c13.enc.tree.n2s2k3", "C13", "every automaton of TA(2,{a:0,b:0,g:2},<=3): dump/load/dump in expl, bdd-bu, bdd-td with state dictionaries", [](Env& e) { encTree(e, "c13.enc.tree.n2s2k3", 2, dom::Sigma2(), 3); });
